@@ -8,10 +8,12 @@
    What onEntries does for one stream (labels -> fp, entries):
      dates := set of UTC days of the entries' timestamps
      tps   := set of sample types present (1 log, 2 metric, 0 both)
-     for d in dates: if maybeAddFp(d, fp, cache)   -- true iff (d, fp) was NOT in the cache; ADDS it now
-                        emit one series row (d, fp, t) per t in tps
-   The pair is marked as announced at parse time, before (and regardless of whether) the rows are
-   inserted. Not modelled: the mid-request flush above 1 MiB (requests of the generator are small),
+     for d in dates: for t in tps:
+        if maybeAddFp(d, fp, t, cache)   -- true iff (d, fp, t) was NOT in the cache; ADDS it now
+           emit the series row (d, fp, t)
+   The triple is marked as announced at parse time, before (and regardless of whether) the row is
+   inserted. (Until the fix recorded in findings.d/C04.txt the cache was keyed by (d, fp) only and a
+   label set seen first with log lines and then with metric values got no type-2 row.) Not modelled: the mid-request flush above 1 MiB (requests of the generator are small),
    cache eviction by fastcache (only causes re-announcement), distributed mode (cache disabled). *)
 From Coq Require Import List ZArith Bool.
 Import ListNotations.
@@ -30,8 +32,12 @@ Inductive action :=
 
 Definition day_of (ts_ns : Z) : Z := (ts_ns / 1000000000) / 86400.
 
-Definition pair_eqb (a b : Z * Z) : bool := (fst a =? fst b) && (snd a =? snd b).
-Definition mem_pair (p : Z * Z) (l : list (Z * Z)) : bool := existsb (pair_eqb p) l.
+Definition row : Type := (Z * Z * Z)%type.         (* series row / cache entry: (day, fingerprint, type code) *)
+Definition sample : Type := (Z * Z * Z)%type.      (* sample: (fingerprint, day of its timestamp, type code) *)
+
+Definition row_eqb (a b : row) : bool :=
+  let '(a1, a2, a3) := a in let '(b1, b2, b3) := b in (a1 =? b1) && (a2 =? b2) && (a3 =? b3).
+Definition mem_row (x : row) (l : list row) : bool := existsb (row_eqb x) l.
 
 Fixpoint nodup_z (l : list Z) : list Z :=
   match l with
@@ -43,27 +49,27 @@ Definition days_of (es : list entry) : list Z := nodup_z (map (fun e => day_of (
 Definition types_of (es : list entry) : list stype :=
   filter (fun t => existsb (fun e => stype_eqb (e_type e) t) es) [TBoth; TLog; TMetric].
 
-Definition row : Type := (Z * Z * Z)%type.         (* series row: (day, fingerprint, type code) *)
-Definition sample : Type := (Z * Z * Z)%type.      (* sample: (fingerprint, day of its timestamp, type code) *)
-
-(* one day of one stream: maybeAddFp + row emission *)
-Definition announce (fp : Z) (tps : list stype) (acc : list (Z * Z) * list row) (d : Z) : list (Z * Z) * list row :=
+(* one (day, type) of one stream: maybeAddFp + row emission *)
+Definition announce_type (d fp : Z) (acc : list row * list row) (t : stype) : list row * list row :=
   let '(cache, rows) := acc in
-  if mem_pair (d, fp) cache then (cache, rows)
-  else ((d, fp) :: cache, rows ++ map (fun t => (d, fp, tcode t)) tps).
+  let x := (d, fp, tcode t) in
+  if mem_row x cache then (cache, rows) else (x :: cache, rows ++ [x]).
 
-Definition on_entries (acc : list (Z * Z) * list row) (s : stream) : list (Z * Z) * list row :=
+Definition announce (fp : Z) (tps : list stype) (acc : list row * list row) (d : Z) : list row * list row :=
+  fold_left (announce_type d fp) tps acc.
+
+Definition on_entries (acc : list row * list row) (s : stream) : list row * list row :=
   fold_left (announce (s_fp s) (types_of (s_entries s))) (days_of (s_entries s)) acc.
 
 (* the parser over a whole request body *)
-Definition parse (cache : list (Z * Z)) (ss : list stream) : list (Z * Z) * list row :=
+Definition parse (cache : list row) (ss : list stream) : list row * list row :=
   fold_left on_entries ss (cache, []).
 
 Definition samples_of (ss : list stream) : list sample :=
   flat_map (fun s => map (fun e => (s_fp s, day_of (e_ts e), tcode (e_type e))) (s_entries s)) ss.
 
 Record state := {
-  cache : list (Z * Z);        (* (day, fingerprint) pairs announced since the last reset *)
+  cache : list row;            (* (day, fingerprint, type) triples announced since the last reset *)
   ts_rows : list row;          (* series rows successfully inserted *)
   acked : list sample          (* samples of acknowledged (2xx) pushes *)
 }.
@@ -122,8 +128,9 @@ Fixpoint clean_hist (dirty : bool) (h : list action) : bool :=
   | Push _ ts_ok _ :: r => negb dirty && clean_hist (negb ts_ok) r
   end.
 
-(* guard of the typed partial theorem: additionally a fingerprint always arrives with the same set of
-   sample types (all streams of the history that carry it have equal type sets) *)
+(* a fingerprint always arrives with the same set of sample types (all streams of the history that
+   carry it have equal type sets): then an inserted row of any type for (day, fingerprint) means
+   rows of all its types were inserted (used by the oracle hv_new below) *)
 Definition all_streams (h : list action) : list stream :=
   flat_map (fun a => match a with Push ss _ _ => ss | CacheReset => [] end) h.
 Fixpoint types_eqb (a b : list stype) : bool :=
@@ -154,8 +161,6 @@ Fixpoint insert_row (x : row) (l : list row) : list row :=
   end.
 Definition sort_rows (l : list row) : list row := fold_right insert_row [] l.
 
-Definition row_eqb (a b : row) : bool :=
-  let '(a1, a2, a3) := a in let '(b1, b2, b3) := b in (a1 =? b1) && (a2 =? b2) && (a3 =? b3).
 Fixpoint rows_eqb (a b : list row) : bool :=
   match a, b with
   | [], [] => true
@@ -192,17 +197,16 @@ Definition obs_all_indexed (typed : bool) (c : hcase) : bool :=
   let '(rows, ack) := observed_state (hc_actions c) (hc_obs c) [] [] in
   forallb (if typed then indexed_typed rows else indexed rows) ack.
 
-(* violations that the recorded findings do not explain ... *)
+(* violations that the recorded finding does not explain: a type-aware miss in a history without a
+   push after a failed series insert, or a type-only miss although the fingerprint's types never vary ... *)
 Definition hv_new (c : hcase) : bool :=
-  (negb (obs_all_indexed false c) && clean_hist false (hc_actions c)) ||
+  (negb (obs_all_indexed true c) && clean_hist false (hc_actions c)) ||
   (obs_all_indexed false c && negb (obs_all_indexed true c) && types_stable (hc_actions c)).
-(* ... and the recorded findings themselves: a push after a failed series insert (no reset in between);
-   a fingerprint arriving with different sample types *)
-Definition hv_retry (c : hcase) : bool := negb (obs_all_indexed false c) && negb (clean_hist false (hc_actions c)).
-Definition hv_type (c : hcase) : bool :=
-  obs_all_indexed false c && negb (obs_all_indexed true c) && negb (types_stable (hc_actions c)).
+(* ... and the recorded finding itself: a push after a failed series insert (no reset in between) *)
+Definition hv_retry (c : hcase) : bool :=
+  negb (obs_all_indexed true c) && negb (clean_hist false (hc_actions c)) && negb (hv_new c).
 
 Definition hids (f : hcase -> bool) (cs : list hcase) : list Z := map hc_id (filter f cs).
-(* [mismatch; new violation; known: retry after failed series insert; known: type row missing] *)
+(* [mismatch; new violation; known: retry after failed series insert] *)
 Definition hreport (cs : list hcase) : list (list Z) :=
-  [hids hist_mismatch cs; hids hv_new cs; hids hv_retry cs; hids hv_type cs].
+  [hids hist_mismatch cs; hids hv_new cs; hids hv_retry cs].
